@@ -4,6 +4,8 @@ from __future__ import annotations
 import numpy as np
 from scipy.spatial.transform import Rotation
 
+import polars as pl
+
 from vcheck import gen
 
 PROP = "C11"
@@ -143,6 +145,34 @@ def run(case):
     r3 = m2.rotate_by(Q, copy=False)
     case.check(r3 is m2 and _ang(m2.rotator, Q * R) <= ANG, "rotate_by(copy=False) must mutate and return self")
     case.check(np.array_equal(mole.pos, before_pos), "copy() shares position storage with the original")
+
+    # ---- aliasing: objects derived without mutation must not share state that a later
+    #      copy=False operation on the derived object changes
+    src32 = pos.copy()
+    parent = Molecules(src32, R)
+    derived = [parent.rotate_by(Q), parent.translate([0, 0, 0]), parent.subset(slice(0, N)),
+               parent.with_features(pl.Series("uidx", np.arange(N))), parent.copy(), parent.rotate_by_rotvec_internal(v1)]
+    for dmol in derived:
+        dmol.translate(t, copy=False)
+        dmol.translate_internal(tN, copy=False)
+        dmol.rotate_by(Q, copy=False)
+    case.check(np.array_equal(parent.pos, pos) and _ang(parent.rotator, R) <= ANG,
+               "a copy=False operation on a derived object changed the object it was derived from", None,
+               dpos=float(np.abs(parent.pos - pos).max()))
+    case.check(np.array_equal(src32, pos), "Molecules modified the position array it was constructed from", None)
+    # ---- world rotation by Euler angles, both coordinate orders, degrees and radians
+    seq_e = SEQS[int(rng.integers(0, 12))]
+    if rng.random() < 0.5:
+        seq_e = seq_e.upper()
+    for deg_e in (False, True):
+        ang_e = rng.uniform(-3, 3, size=(N, 3)) * (57.29577951308232 if deg_e else 1.0)
+        out_e = mole.rotate_by_euler_angle(ang_e, seq=seq_e, degrees=deg_e, order="zyx")
+        want_e = Rotation.from_euler(seq_e, ang_e, degrees=deg_e) * R
+        case.check(_ang(out_e.rotator, want_e) <= ANG, "rotate_by_euler_angle(order='zyx') is not the scipy Euler "
+                   "rotation composed on the left", None, seq=seq_e, degrees=deg_e, err=_ang(out_e.rotator, want_e))
+        m_e = Molecules.from_euler(pos, ang_e, seq=seq_e, degrees=deg_e, order="zyx")
+        case.check(_ang(m_e.rotator, Rotation.from_euler(seq_e, ang_e, degrees=deg_e)) <= ANG,
+                   "from_euler(order='zyx') ignores seq/degrees", None, seq=seq_e, degrees=deg_e)
 
     # ---- programs
     ref_p, ref_R = pos.astype(np.float64).copy(), R
